@@ -873,7 +873,43 @@ func boundedAbove(v ssa.Value, at *ssa.BasicBlock, depth int) bool {
 			}
 		}
 		return len(x.Edges) > 0
+	case *ssa.Extract:
+		// a result of a local helper: bounded when the helper bounds that result on every return
+		if call, ok := x.Tuple.(*ssa.Call); ok {
+			if sc := call.Call.StaticCallee(); sc != nil && len(sc.Blocks) > 0 && sc.Pkg != nil && depth < 4 {
+				all, n := true, 0
+				for _, b := range sc.Blocks {
+					if r, ok := b.Instrs[len(b.Instrs)-1].(*ssa.Return); ok && x.Index < len(r.Results) {
+						n++
+						rv := r.Results[x.Index]
+						if k, isK := constInt(rv); isK && k == 0 {
+							continue // the "not a number" return
+						}
+						if !boundedAbove(rv, b, depth+1) {
+							all = false
+						}
+					}
+				}
+				if all && n > 0 {
+					return true
+				}
+			}
+		}
 	case *ssa.Call:
+		if sc := x.Call.StaticCallee(); sc != nil && len(sc.Blocks) > 0 && sc.Pkg != nil && depth < 4 && sc.Signature.Results().Len() == 1 {
+			all, n := true, 0
+			for _, b := range sc.Blocks {
+				if r, ok := b.Instrs[len(b.Instrs)-1].(*ssa.Return); ok && len(r.Results) == 1 {
+					n++
+					if !boundedAbove(r.Results[0], b, depth+1) {
+						all = false
+					}
+				}
+			}
+			if all && n > 0 {
+				return true
+			}
+		}
 		if b, ok := x.Call.Value.(*ssa.Builtin); ok && b.Name() == "min" {
 			for _, a := range x.Call.Args {
 				if k, ok := constInt(a); ok && k <= maxSecondsBound {
@@ -930,10 +966,18 @@ func sameValue(a, b ssa.Value) bool {
 func ruleSaturation(c *Ctx, rule string) {
 	// the delta-seconds decoder: raw Value() method that calls strconv.ParseInt/Atoi/ParseUint
 	var dec *ssa.Function
+	parsesInt := func(fn *ssa.Function) bool {
+		for g := range c.P.StaticTree(fn) {
+			if callsWhere(g, func(cc *ssa.CallCommon) bool {
+				return callIsPkgFunc(cc, "strconv", "ParseInt") || callIsPkgFunc(cc, "strconv", "Atoi") || callIsPkgFunc(cc, "strconv", "ParseUint")
+			}) {
+				return true
+			}
+		}
+		return false
+	}
 	for fn := range c.A.RawValue {
-		if callsWhere(fn, func(cc *ssa.CallCommon) bool {
-			return callIsPkgFunc(cc, "strconv", "ParseInt") || callIsPkgFunc(cc, "strconv", "Atoi") || callIsPkgFunc(cc, "strconv", "ParseUint")
-		}) {
+		if parsesInt(fn) { // (directly, or in a helper the decoding was moved to)
 			if dec != nil {
 				c.Undecided(rule, "delta-decoder", "a unique delta-seconds decoder exists", "several raw decoders parse integers")
 				return
@@ -949,11 +993,17 @@ func ruleSaturation(c *Ctx, rule string) {
 		// (a) range errors are converted, not dropped: under err!=nil of the integer parse a return with valid=true is reachable,
 		//     or the function does not look at the error because it clamps by digit count (not modelled: undecided)
 		var parse *ssa.Call
-		instrsOf(fn, func(in ssa.Instruction) {
-			if call, ok := in.(*ssa.Call); ok && (callIsPkgFunc(&call.Call, "strconv", "ParseInt") || callIsPkgFunc(&call.Call, "strconv", "Atoi") || callIsPkgFunc(&call.Call, "strconv", "ParseUint")) {
-				parse = call
-			}
-		})
+		top := fn
+		for g := range c.P.StaticTree(top) {
+			instrsOf(g, func(in ssa.Instruction) {
+				if call, ok := in.(*ssa.Call); ok && parse == nil && (callIsPkgFunc(&call.Call, "strconv", "ParseInt") || callIsPkgFunc(&call.Call, "strconv", "Atoi") || callIsPkgFunc(&call.Call, "strconv", "ParseUint")) {
+					parse = call
+				}
+			})
+		}
+		if parse != nil {
+			fn = parse.Parent() // the range error is handled where the number is parsed
+		}
 		if parse == nil {
 			c.Undecided(rule, "saturate-"+what, "integer parse found", "no strconv integer parse in "+c.P.ShortName(fn))
 			return
@@ -1011,15 +1061,17 @@ func ruleSaturation(c *Ctx, rule string) {
 		}
 		// (b) multiplication by time.Second is dominated by an upper clamp
 		var mul *ssa.BinOp
-		instrsOf(fn, func(in ssa.Instruction) {
-			if b, ok := in.(*ssa.BinOp); ok && b.Op == token.MUL {
-				for _, o := range []ssa.Value{b.X, b.Y} {
-					if k, ok := constInt(o); ok && k == 1_000_000_000 {
-						mul = b
+		for g := range c.P.StaticTree(top) {
+			instrsOf(g, func(in ssa.Instruction) {
+				if b, ok := in.(*ssa.BinOp); ok && b.Op == token.MUL {
+					for _, o := range []ssa.Value{b.X, b.Y} {
+						if k, ok := constInt(o); ok && k == 1_000_000_000 {
+							mul = b
+						}
 					}
 				}
-			}
-		})
+			})
+		}
 		descB := "the seconds value is clamped (<= MaxInt64/1e9) before it is multiplied by time.Second"
 		if mul == nil {
 			c.Undecided(rule, "clamp-"+what, descB, "no multiplication by time.Second in "+c.P.ShortName(fn))
